@@ -58,6 +58,25 @@ def get_assertion_protected_variables(test_case: tc.TestCase) -> set[str]:
     return protected
 
 
+def _is_protected(statement: tc.Statement, protected: set[str]) -> bool:
+    """Whether minimization must keep a statement, whatever it does to the coverage.
+
+    Args:
+        statement: The statement
+        protected: The assertion-protected variables of its test case
+
+    Returns:
+        True for a statement that binds a protected variable, that carries assertions
+        (removing it removes them, too) or that uses a protected variable: it may
+        change the state of the object a later assertion observes.
+    """
+    return (
+        statement.bound_variable in protected
+        or bool(statement.assertions)
+        or not statement.used_variables().isdisjoint(protected)
+    )
+
+
 def _directly_asserted_variables(test_case: tc.TestCase) -> set[str]:
     """Collect variable names that are the direct source of a reference assertion.
 
@@ -283,8 +302,7 @@ class ForwardIterativeMinimizationVisitor(IterativeMinimizationVisitor):
             i = 0
             while i < test_case.size():
                 statement = test_case.get_statement(i)
-                if statement.bound_variable in protected or statement.assertions:
-                    # Removing a statement removes the assertions attached to it, too.
+                if _is_protected(statement, protected):
                     i += 1
                     continue
                 test_clone = test_case.clone()
@@ -317,8 +335,7 @@ class BackwardIterativeMinimizationVisitor(IterativeMinimizationVisitor):
             i = test_case.size() - 1
             while i >= 0:
                 statement = test_case.get_statement(i)
-                if statement.bound_variable in protected or statement.assertions:
-                    # Removing a statement removes the assertions attached to it, too.
+                if _is_protected(statement, protected):
                     i -= 1
                     continue
                 test_clone = test_case.clone()
@@ -498,8 +515,7 @@ class CombinedMinimizationVisitor(cv.ChromosomeVisitor):
                 i = 0
                 while i < test_case.size():
                     statement = test_case.get_statement(i)
-                    if statement.bound_variable in protected or statement.assertions:
-                        # Removing a statement removes the assertions attached to it, too.
+                    if _is_protected(statement, protected):
                         i += 1
                         continue
                     test_suite_clone = chromosome.clone()
